@@ -8,6 +8,7 @@ import PasfmtModel.Proofs.LexShape
 import PasfmtModel.Proofs.Simd
 import PasfmtModel.Proofs.Keywords
 import PasfmtModel.Proofs.LexTotal
+import PasfmtModel.Proofs.LexBoundaries
 
 namespace Pasfmt.C13
 
@@ -16,6 +17,13 @@ namespace Pasfmt.C13
     leaves the text, with either identifier routine.  (Slices on character boundaries: see
     `lex_char_boundaries`.) -/
 theorem lex_total (simd : Bool) (s : Bytes) : ∃ toks, lexWith simd s = some toks := lexWith_total simd s
+
+/-- all boundaries fall on character boundaries: for well-formed UTF-8 input the leading blanks and the
+    content of every token are well-formed UTF-8 (every offset at which the Rust scanner slices the
+    `&str` is a character boundary), with either identifier routine -/
+theorem lex_char_boundaries (simd : Bool) (s : Bytes) (toks : List RawTok) (hv : ValidUtf8 s)
+    (h : lexWith simd s = some toks) : ∀ t ∈ toks, ValidUtf8 t.ws ∧ ValidUtf8 t.content :=
+  lexWith_char_boundaries simd s toks hv h
 
 /-- leading blanks and contents of the tokens concatenate back to exactly the input -/
 theorem lex_lossless (s : Bytes) (toks : List RawTok) (h : lex s = some toks) :
@@ -68,6 +76,10 @@ theorem keyword_table_builds : (mkLookupTable keywords).isSome = true := by deci
 
 /-- the translator found the gperf shape of `hash_keyword` and the table size expression unchanged -/
 theorem hash_shape_unchanged : hashShapeOk = true ∧ lookupTableSizeIsAsso0 = true := by decide
+
+-- Non-vacuity of the `ValidUtf8` hypothesis: the sample below (with `é`) is well-formed.
+example : validUtf8 [66, 101, 103, 105, 110, 32, 123, 99, 125, 32, 195, 169, 32, 227, 128, 128, 101, 110, 100] = true := by
+  decide +kernel
 
 -- Non-vacuity: a concrete input with a comment, a directive, a keyword in mixed case, a
 -- multi-line string and non-ASCII text is accepted by the model and yields 10 tokens.
